@@ -1,6 +1,7 @@
 package rules
 
 import (
+	"go/constant"
 	"go/token"
 	"go/types"
 	"strings"
@@ -623,6 +624,80 @@ func c02Abst(r *core.Run) {
 			"the renamer's answer for a literal inside a symbolic expression is not a fixed placeholder under ShouldAbstract ("+dep+")")
 	}
 	r.Floor("C02.ABST", "renamer clause answering literal requests", nAns, 1)
+
+	// an integer literal is kept verbatim only if it is small: in the policy's decision function, no "keep" result
+	// (constant false) is reachable after the test "the literal is an integer" succeeded without the test "it lies in
+	// the small range" having succeeded too — whatever the usage context and the policy's switches
+	nKeep := 0
+	for _, fn := range p.FuncsIn("pkg/analysis/ir") {
+		rt := resultTypes(fn)
+		if fn.Signature.Recv() == nil || len(rt) != 1 || rt[0].String() != "bool" || len(fn.Params) < 2 || !strings.HasSuffix(fn.Params[1].Type().String(), "ssa.Const") {
+			continue
+		}
+		isSmallVal := func(x ssa.Value) bool {
+			small := func(v ssa.Value) bool {
+				c, ok := v.(*ssa.Call)
+				if !ok {
+					return false
+				}
+				g := core.StaticCallee(&c.Call)
+				return g != nil && p.IsProdFunc(g) && strings.Contains(g.Name(), "Small")
+			}
+			if small(x) {
+				return true
+			}
+			ph, ok := x.(*ssa.Phi)
+			if !ok {
+				return false
+			}
+			n := 0
+			for _, e := range ph.Edges {
+				if k, isC := e.(*ssa.Const); isC {
+					if k.Value == nil || k.Value.Kind() != constant.Bool || constant.BoolVal(k.Value) {
+						return false
+					}
+					continue
+				}
+				if !small(e) {
+					return false
+				}
+				n++
+			}
+			return n > 0
+		}
+		isIntegerVal := func(x ssa.Value) bool {
+			b, ok := x.(*ssa.BinOp)
+			if !ok || b.Op != token.EQL {
+				return false
+			}
+			c, isCall := b.X.(*ssa.Call)
+			k, isK := core.ConstInt(b.Y)
+			return isCall && isK && k == int64(constant.Int) && c.Call.IsInvoke() && c.Call.Method.Name() == "Kind"
+		}
+		smallEdges, nSmall := core.GuardEdges(fn, core.BoolGuard(isSmallVal, true))
+		intEdges, nInt := core.GuardEdges(fn, core.BoolGuard(isIntegerVal, true))
+		if len(nSmall) == 0 || len(nInt) == 0 {
+			continue
+		}
+		var wit []int
+		for _, ret := range core.Returns(fn) {
+			k, isC := ret.Results[0].(*ssa.Const)
+			if !isC || k.Value == nil || constant.BoolVal(k.Value) {
+				continue
+			}
+			nKeep++
+			for e := range intEdges {
+				if e.Via != nil {
+					continue
+				}
+				if pth := core.PathAvoiding(e.From.Succs[e.Idx], ret.Block(), smallEdges); pth != nil && wit == nil {
+					wit = append([]int{e.From.Index}, pth...)
+				}
+			}
+		}
+		r.Check(wit == nil, "C02.ABST", core.FuncName(fn)+"#integer-kept-only-if-small", fn.Pos(), "an integer literal is kept verbatim only after the small-range test succeeded", "an integer literal can be kept verbatim without the small-range test having succeeded (path "+core.FmtPath(wit)+"): literals outside the documented small range leak into the fingerprint in that usage context, so replacing one changes the fingerprint")
+	}
+	r.Floor("C02.ABST", "'keep' results of the literal policy's decision function", nKeep, 3)
 }
 
 func c02Comm(r *core.Run) {
